@@ -160,6 +160,8 @@ func (q *Queue) Add(elem *queue.Elem) (err error) {
 		if drop {
 			if dropErr == queue.ErrDropExpiredInflight {
 				q.notifier.NotifyInflightAdded(-1)
+				// the entry is gone: a late acknowledgement of its packet id must not remove (and count) anything
+				delete(q.readCache, dropElem.ID())
 				if dropBeforeCursor {
 					q.current--
 				}
